@@ -187,6 +187,7 @@ func (c *vPipeCase) truth() [][]RawType {
 type vEmit struct {
 	Block int
 	Rec   *DataRecord
+	Snap  []RawType // the record's samples as they were when it came off the publish channel
 }
 
 type vBlockInfo struct {
@@ -442,7 +443,7 @@ func vRunPipe(c *vPipeCase, observe func(tr *vTrace, k int, recs []*DataRecord) 
 		tr.Blocks = append(tr.Blocks, bi)
 		recs := vDrainRecords()
 		for _, r := range recs {
-			tr.Emits = append(tr.Emits, vEmit{Block: k, Rec: r})
+			tr.Emits = append(tr.Emits, vEmit{Block: k, Rec: r, Snap: append([]RawType(nil), r.data...)})
 		}
 		pos += blen
 		if observe != nil {
@@ -451,7 +452,27 @@ func vRunPipe(c *vPipeCase, observe func(tr *vTrace, k int, recs []*DataRecord) 
 			}
 		}
 	}
+	// A published record belongs to its consumer (the publisher goroutine may serialise it much later): processing and
+	// trimming of later blocks must not change it.
+	for _, e := range tr.Emits {
+		same := len(e.Rec.data) == len(e.Snap)
+		for i := 0; same && i < len(e.Snap); i++ {
+			same = e.Rec.data[i] == e.Snap[i]
+		}
+		if !same {
+			f := vFailf("record-changed-after-publication", "the record of channel %d at frame %d, published while block %d was processed, holds other samples after the later blocks were processed (%v... then, %v... now)",
+				e.Rec.channelIndex, e.Rec.trigFrame, e.Block, vHeadRaw(e.Snap), vHeadRaw(e.Rec.data))
+			return tr, &f
+		}
+	}
 	return tr, nil
+}
+
+func vHeadRaw(x []RawType) []RawType {
+	if len(x) > 6 {
+		return x[:6]
+	}
+	return x
 }
 
 // vCheckExcerpt is the C01 validity predicate for one record emitted while block k was processed.
